@@ -87,7 +87,7 @@ fn main() {
         out.flush().unwrap();
         let ty = req["ty"].as_str().unwrap_or("");
         let rt_ops = gencases::rt::Ops { exec: gencases::rt::exec_rt, default: None };
-        let Some(ops) = (if ty.starts_with('@') { Some(&rt_ops) } else { table.get(ty) }) else {
+        let Some(ops) = table.get(ty).or(if ty == "@rt" || ty == "@appexc" { Some(&rt_ops) } else { None }) else {
             writeln!(out, "{}", serde_json::json!({"id": id, "ok": false, "err": format!("harness: no such type {ty}"), "tool_error": true})).unwrap();
             continue;
         };
